@@ -39,6 +39,7 @@ TRANSPARENT = (
     'core::convert::AsRef::as_ref', 'core::borrow::Borrow::borrow', 'core::convert::Into::into',
     'core::convert::From::from', 'alloc::vec::Vec::<T, A>::as_slice',
     'alloc::string::String::as_bytes', 'core::str::<impl str>::as_bytes', 'alloc::string::String::as_str',
+    'core::result::Result::<T, E>::map_err', 'core::option::Option::<T>::ok_or_else', 'core::option::Option::<T>::ok_or',
 )
 
 
@@ -73,14 +74,28 @@ def canon_place(B, pl, depth=0):
             projs.append('?')
     if not projs:
         return base
+    # static type of the projected place (last field projection carries it)
+    pty = None
+    for e in reversed(pl.get('p') or []):
+        if e == '*':
+            continue
+        if isinstance(e, dict) and 'ty' in e:
+            pty = e['ty']
+        break
     if base[0] == 'try' and projs[:2] == ['as:Continue', '0']:
         base = ('payload', base[1])
         projs = projs[2:]
         if not projs:
             return base
     if base[0] == 'place':
-        return ('place', base[1], base[2] + tuple(projs))
-    return ('place', base, tuple(projs))
+        res = ('place', base[1], base[2] + tuple(projs))
+    else:
+        res = ('place', base, tuple(projs))
+    if pty is not None:
+        if not hasattr(B, '_cty'):
+            B._cty = {}
+        B._cty[res] = pty
+    return res
 
 
 def _canon_local(B, l, depth):
@@ -160,9 +175,12 @@ def canon(B, op, depth=0):
 
 
 class Ranges:
+    FNS = {}      # path -> signature record, set once per run (for recognising workspace parsers)
+
     def __init__(self, B):
         self.B = B
         self._facts = {}
+        self.B_prog_fns = Ranges.FNS
 
     # ---- facts from dominating conditions --------------------------------
     def facts_at(self, bb):
@@ -339,15 +357,19 @@ class Ranges:
             lo, hi = max(lo, 0), min(hi, LEN_MAX)
         elif k == 'remaining':
             lo, hi = max(lo, 0), min(hi, LEN_MAX)
-        elif k == 'call' and tr is None:
+        elif k == 'call':
             t = self.B.blocks[c[2]]['t']
             r0 = ty_range(self.B.local_ty(t['dst']['l'])) if not t['dst'].get('p') else None
             if r0:
-                lo, hi = r0
-        elif k in ('arg', 'local') and tr is None:
+                lo, hi = max(lo, r0[0]), min(hi, r0[1])
+        elif k in ('arg', 'local'):
             r0 = ty_range(self.B.local_ty(c[1]))
             if r0:
-                lo, hi = r0
+                lo, hi = max(lo, r0[0]), min(hi, r0[1])
+        elif k == 'place':
+            r0 = ty_range(getattr(self.B, '_cty', {}).get(c, ''))
+            if r0:
+                lo, hi = max(lo, r0[0]), min(hi, r0[1])
         elif k == 'cast':
             inner = self._range_canon(c[2], bb, None, use_facts, depth + 1)
             to = ty_range(c[1])
@@ -372,6 +394,8 @@ class Ranges:
                 r = (a[0] + b[0], a[1] + b[1])
             elif op == 'Sub':
                 r = (a[0] - b[1], a[1] - b[0])
+                if r[0] < 0 and depth < 4 and bb is not None and self.prove_le(c[3], c[2], bb, False, 6):
+                    r = (0, r[1])
             elif op == 'Mul' and a[0] >= 0 and b[0] >= 0:
                 r = (a[0] * b[0], a[1] * b[1])
             elif op == 'Div' and a[0] >= 0 and b[0] > 0:
@@ -389,6 +413,17 @@ class Ranges:
                 # arithmetic range when it stays inside the type (no wrap)
                 if tr is None or (r[0] >= tr[0] and r[1] <= tr[1]):
                     lo, hi = max(lo, r[0]), min(hi, r[1])
+        if k == 'place':
+            lv = self.loop_var_bounds(c)
+            if lv is not None and depth < 6:
+                a = self._range_canon(lv[0], bb, None, use_facts, depth + 1)
+                b = self._range_canon(lv[1], bb, None, use_facts, depth + 1)
+                lo, hi = max(lo, a[0]), min(hi, b[1] - 1)
+        if k == 'len':
+            al = self.len_alias(c)
+            if al is not None and depth < 6:
+                a = self._range_canon(al, bb, None, use_facts, depth + 1)
+                lo, hi = max(lo, a[0]), min(hi, a[1])
         if use_facts and bb is not None:
             f = self.facts_at(bb).get(c)
             if f:
@@ -439,10 +474,93 @@ class Ranges:
         self._rels[bb] = out
         return out
 
+    # ---- knowledge about parser combinators ---------------------------------------
+    def _call_of_payload(self, c):
+        """for c = ('place', ('payload', ('call', name, bb)), (field,)) -> (call terminator, field)"""
+        if c[0] == 'place' and c[1][0] == 'payload' and c[1][1][0] == 'call' and len(c[2]) == 1:
+            return self.B.blocks[c[1][1][2]]['t'], c[2][0]
+        return None, None
+
+    def len_alias(self, c):
+        """len(x) where x is the slice produced by nom `take(n)(input)?` equals n."""
+        if c[0] != 'len':
+            return None
+        t, fld = self._call_of_payload(c[1])
+        if t is None or fld != '1':
+            return None
+        g, r = callee_of(t)
+        if g in ('core::ops::function::FnMut::call_mut', 'core::ops::function::FnOnce::call_once', 'nom::internal::Parser::parse') and t['args']:
+            o = self.B.origin(t['args'][0])
+            if o[0] == 'call' and o[1] and o[1].startswith('nom::bytes::complete::take'):
+                return canon(self.B, self.B.blocks[o[2]]['t']['args'][0])
+        return None
+
+    def suffix_parent(self, c):
+        """x = the remaining-input component (.0) of a successful parser call p(input, ..)?  ->  canon(input):
+        parsers only consume from the front, so len(x) <= len(input)."""
+        t, fld = self._call_of_payload(c)
+        if t is None or fld != '0' or not t['args']:
+            return None
+        g, r = callee_of(t)
+        names = [n for n in (g, r) if n]
+        is_parser = any(n.startswith('nom::number::complete::') or n.startswith('nom::bytes::complete::') for n in names)
+        if not is_parser and g in ('core::ops::function::FnMut::call_mut', 'nom::internal::Parser::parse'):
+            # combinator object applied to (input,)
+            if len(t['args']) > 1:
+                ao = self.B.origin(t['args'][1])
+                if ao[0] == 'agg' and ao[1]['ak'] == 'tuple' and ao[1]['ops']:
+                    return canon(self.B, ao[1]['ops'][0])
+            return None
+        if not is_parser:
+            for n in names:
+                sig = None
+                try:
+                    sig = self.B_prog_fns.get(n)
+                except AttributeError:
+                    sig = None
+                if sig:
+                    import re
+                    out_ty = re.sub(r"'[a-z_]+ ", '', sig['output'])
+                    in0 = re.sub(r"'[a-z_]+ ", '', sig['inputs'][0]) if sig['inputs'] else ''
+                    if out_ty.startswith('core::result::Result<(&[u8], ') and in0 == '&[u8]':
+                        is_parser = True
+        if is_parser:
+            return canon(self.B, t['args'][0])
+        return None
+
     def prove_le(self, ca, cb, bb, strict=False, depth=0):
         """Is ca <= cb (ca < cb when strict) established at bb?"""
-        if depth > 6:
+        if depth > 8:
             return False
+        a2 = self.len_alias(ca)
+        if a2 is not None:
+            ca = a2
+        b2 = self.len_alias(cb)
+        if b2 is not None:
+            cb = b2
+        # len(suffix) <= len(parent) <= ...
+        if ca[0] == 'len' and not strict:
+            par = self.suffix_parent(ca[1])
+            if par is not None and self.prove_le(('len', par), cb, bb, False, depth + 1):
+                return True
+        # b = y + k (k >= 1):  a < b  <=  a <= y ;   a <= b  <=  a <= y
+        if cb[0] == 'bin' and cb[1] in ('Add', 'AddUnchecked'):
+            for y, kc in ((cb[2], cb[3]), (cb[3], cb[2])):
+                kr = self._range_canon(kc, bb, None, True, 0)
+                if kr[0] >= 1 and self.prove_le(ca, y, bb, False, depth + 1):
+                    return True
+                if kr[0] >= 0 and self.prove_le(ca, y, bb, strict, depth + 1):
+                    return True
+        # monotonic division: p / k <= q / k  <=  p <= q
+        if ca[0] == 'bin' and cb[0] == 'bin' and ca[1] == 'Div' and cb[1] == 'Div' and ca[3] == cb[3] and not strict:
+            kr = self._range_canon(ca[3], bb, None, True, 0)
+            if kr[0] >= 1 and self.prove_le(ca[2], cb[2], bb, False, depth + 1):
+                return True
+        # loop variable of `for i in a..b`: a <= i < b
+        lv = self.loop_var_bounds(ca)
+        if lv is not None:
+            if self.prove_le(lv[1], cb, bb, False, depth + 1):
+                return True
         ra = self._range_canon(ca, bb, None, True, 0)
         rb = self._range_canon(cb, bb, None, True, 0)
         if strict and ra[1] < rb[0]:
@@ -493,6 +611,25 @@ class Ranges:
             if to and inner[0] >= to[0] and inner[1] <= to[1]:
                 return self.prove_le(ca, cb[2], bb, strict, depth + 1)
         return False
+
+    def loop_var_bounds(self, c):
+        """c = Some-payload of Iterator::next on a Range {start, end}  ->  (canon(start), canon(end))  (start <= c < end)"""
+        if c[0] != 'place' or c[1][0] != 'call' or tuple(c[2]) != ('as:Some', '0'):
+            return None
+        t = self.B.blocks[c[1][2]]['t']
+        g, r = callee_of(t)
+        if g != 'core::iter::traits::iterator::Iterator::next' or not t['args']:
+            return None
+        o = self.B.origin(t['args'][0])
+        # iter local <- IntoIterator::into_iter(Range{start,end})
+        for _ in range(4):
+            if o[0] == 'call' and o[1] and o[1].endswith('into_iter'):
+                o = self.B.origin(self.B.blocks[o[2]]['t']['args'][0])
+                continue
+            break
+        if o[0] == 'agg' and o[1].get('adt', '').endswith('ops::range::Range') and len(o[1]['ops']) == 2:
+            return canon(self.B, o[1]['ops'][0]), canon(self.B, o[1]['ops'][1])
+        return None
 
     def infeasible(self, bb):
         """True when the dominating conditions of bb are contradictory (some value has an empty range)."""
